@@ -183,6 +183,14 @@ class PropertyRun:
                 rep.error = f"RecursionError: {e}"
             except z3.Z3Exception as e:
                 rep.error = f"Z3Exception while generating VCs: {e}"
+            except (TypeError, AttributeError, KeyError, IndexError) as e:
+                # a clause of the sidecar that cannot be evaluated on the code as it is now (e.g. a callee precondition over an argument the call no longer
+                # passes): the sidecar no longer matches the code - no verdict for this function.  Anything raised elsewhere is a checker fault.
+                import traceback as _tb
+
+                if not any("/contracts/" in fr.filename for fr in _tb.extract_tb(e.__traceback__)):
+                    raise
+                rep.error = f"a sidecar clause cannot be evaluated on this code ({type(e).__name__}: {e}): the sidecar no longer matches the code"
             rep.gen_s = time.time() - t
         flat = []
         for q, (ex, obls) in per_fn.items():
